@@ -22,6 +22,7 @@ import Driver.SemaChk
 import Driver.OnceChk
 import Driver.IoChChk
 import Driver.IoHoldChk
+import Driver.StreamChk
 import Driver.DataRcChk
 import Driver.ApplyChk
 import Driver.SourceChk
@@ -323,6 +324,7 @@ def main (args : List String) : IO UInt32 := do
   | "once" :: paths => OnceChk.main paths
   | "iobar" :: paths => IoChChk.main paths
   | "iohold" :: paths => IoHoldChk.main paths
+  | "streamsrc" :: paths => StreamChk.main paths
   | "datarc" :: paths => DataRcChk.main paths
   | "apply" :: paths => ApplyChk.main paths
   | "source" :: paths => SourceChk.main paths
